@@ -91,7 +91,7 @@ def step (st : St) (line : String) : St × String :=
 open Lumina.Spec.C32 in
 def knownOf (r : Rec) : Known :=
   { id := r.id, sends := r.sends, answered := decide (1 ≤ r.answers), closed := r.closed,
-    waiting := r.phase == .pending }
+    waiting := r.phase == .pending, inflight := r.phase == .inflight }
 
 def parseSent (s : String) : Option Lumina.Spec.C32.Sent :=
   match s.splitOn ":" with
@@ -112,13 +112,36 @@ def spec (st : St) (op : String) (obs : String) : String :=
     | some (ev?, _), some sentS, some ansS =>
       let known := st.s.recs.map knownOf ++
         (match ev? with
-         | some (.request _) => [{ id := st.s.recs.length, sends := 0, answered := false, closed := false, waiting := false }]
+         | some (.request _) => [{ id := st.s.recs.length, sends := 0, answered := false, closed := false, waiting := false, inflight := false }]
          | _ => [])
       let sent? := if sentS == "-" then some [] else (sentS.splitOn ",").mapM parseSent
-      let ans? : Option (List Nat) := if ansS == "-" then some []
-        else (ansS.splitOn ",").mapM (fun a => match a.splitOn ":" with | [i, _] => String.toNat? i | _ => none)
-      match sent?, ans? with
-      | some sent, some ans =>
+      let kindOf (k : String) : Option AnsKind :=
+        if k == "ok" then some .ok else if k == "nf" then some .headerNotFound else if k == "ir" then some .invalidResponse
+        else if k == "iq" then some .invalidRequest else if k == "of" then some .outboundFailure
+        else if k == "rc" then some .requestCancelled else none
+      let answers? : Option (List (Nat × AnsKind)) := if ansS == "-" then some []
+        else (ansS.splitOn ",").mapM (fun a => match a.splitOn ":" with
+          | [i, k] => match String.toNat? i, kindOf k with
+            | some i, some k => some (i, k)
+            | _, _ => none
+          | _ => none)
+      let resKindOf : Res → AnsKind
+        | .ok => .ok | .headerNotFound => .headerNotFound | .invalidResponse => .invalidResponse
+        | .outboundFailure => .outboundFailure
+      match sent?, answers? with
+      | some sent, some answers =>
+        let ans := answers.map (·.1)
+        -- what the callers are told (kind included), per kind of step
+        let contentOk : Bool := match ev? with
+          | some (.request v) => specRequestAnswers st.s.recs.length st.s.stopped v answers
+          | some (.outcome id att res) =>
+            let cur := match st.s.recs[id]? with | some x => att == x.sends | none => false
+            specOutcomeAnswers known id cur (resKindOf res) answers
+          | some .stop => specStopAnswers answers
+          | _ => specQuietStep answers
+        if !contentOk then
+          "specfail C32/answer-content a caller was told something other than the first valid response / the final error / cancelled, or was answered at the wrong moment"
+        else
         if !specSends known sent then
           "specfail C32/sends a request was sent more than three times, to a peer that is not connected, with its third attempt to a non-archival peer, or after its answer"
         else if !specAnswers known ans then
